@@ -164,7 +164,8 @@ func timeUnix(t time.Time) int64 {
 // start creates and starts a new incarnation of identity i.
 func (w *world) start(i int, c lcCfg, seed int64, crashAt int, side string) error {
 	w.step()
-	rec := &recorder{w: w, id: i, crashAt: crashAt, side: side}
+	rec := &recorder{w: w, id: i, crashAt: crashAt, side: side, rejFrom: w.rejNext[0], rejLen: w.rejNext[1]}
+	w.rejNext = [2]int{}
 	if prev := w.inc[i]; prev != nil {
 		rec.reject = prev.rec.reject // the store's attitude towards this identity outlives the process
 	}
